@@ -72,17 +72,18 @@ func clientConfig(gm bool, cache gmtls.ClientSessionCache) *gmtls.Config {
 func listen() (net.Listener, error) { return net.Listen("tcp", "127.0.0.1:0") }
 
 func dial(addr string) (net.Conn, error) {
-	c, err := net.DialTimeout("tcp", addr, 10*time.Second)
+	c, err := net.DialTimeout("tcp", addr, hx.D(10*time.Second))
 	if err != nil {
 		return nil, err
 	}
-	c.SetDeadline(time.Now().Add(ioDeadline))
+	c.SetDeadline(time.Now().Add(hx.D(ioDeadline)))
 	return c, nil
 }
 
 // ---- many simultaneous handshakes sharing one server Config, session tickets, key rotation -------------------
 // rows: config_server_init, config_ticket_keys_read, config_set_ticket_keys, config_clone, lru_put, lru_get,
-//       conn_handshake (separate connections)
+//
+//	conn_handshake (separate connections)
 func scenHandshakes(kind string, seed uint64, goroutines, iters int) (int, int, string, error) {
 	scfg, err := serverConfig(kind)
 	if err != nil {
@@ -104,7 +105,7 @@ func scenHandshakes(kind string, seed uint64, goroutines, iters int) (int, int, 
 			swg.Add(1)
 			go func(raw net.Conn) {
 				defer swg.Done()
-				raw.SetDeadline(time.Now().Add(ioDeadline))
+				raw.SetDeadline(time.Now().Add(hx.D(ioDeadline)))
 				c := gmtls.Server(raw, scfg)
 				defer c.Close()
 				if err := c.Handshake(); err != nil {
@@ -256,7 +257,7 @@ func scenConnRWC(gm bool, seed uint64, goroutines, iters int) (int, int, string,
 			ach <- acc{nil, err}
 			return
 		}
-		raw.SetDeadline(time.Now().Add(ioDeadline))
+		raw.SetDeadline(time.Now().Add(hx.D(ioDeadline)))
 		c := gmtls.Server(raw, scfg)
 		ach <- acc{c, c.Handshake()}
 	}()
@@ -436,7 +437,7 @@ func scenConnRWC(gm bool, seed uint64, goroutines, iters int) (int, int, string,
 	}
 	close(start)
 	// phase 1: every writer's first iters messages have arrived and the readers hold S bytes
-	deadline := time.After(40 * time.Second)
+	deadline := time.After(hx.D(40 * time.Second))
 	select {
 	case <-phase1:
 	case <-deadline:
@@ -609,7 +610,9 @@ func scenLRU(seed uint64, goroutines, iters int) (int, int, string, error) {
 }
 
 // ---- first use of a Config (serverInit under serverInitOnce, reached through Clone or the first handshake)
-//      while SetSessionTicketKeys rotates the keys (rows config_first_use / config_clone x config_set_ticket_keys).
+//
+//	while SetSessionTicketKeys rotates the keys (rows config_first_use / config_clone x config_set_ticket_keys).
+//
 // Functional observation (public behaviour only): whatever the interleaving, afterwards the Config issues tickets
 // under the ROTATED key k - a ticket obtained from it is accepted (session resumed) by another server Config
 // whose only ticket key is k.  Handshakes are expensive, so this is sampled every 40th round; the race detector
@@ -690,7 +693,7 @@ func handshakeOnce(scfg, ccfg *gmtls.Config) (bool, error) {
 			done <- err
 			return
 		}
-		raw.SetDeadline(time.Now().Add(ioDeadline))
+		raw.SetDeadline(time.Now().Add(hx.D(ioDeadline)))
 		c := gmtls.Server(raw, scfg)
 		err = c.Handshake()
 		if err == nil {
